@@ -489,7 +489,11 @@ def check_command_line(acc, scripts):
             cwd=env.REPO, env=environment, capture_output=True, text=True,
             timeout=120)
     except subprocess.TimeoutExpired:
-        raise env.HarnessError('lsrun did not end within 120 s')
+        # a wall-clock budget, not an oracle: inconclusive (a queue that
+        # does not drain is decided by the scheduled runs, where time is
+        # virtual)
+        acc.case(key=repr(scripts), labels=['lsrun', 'lsrun-inconclusive'])
+        return
     finally:
         shutil.rmtree(directory, ignore_errors=True)
     want = []
